@@ -9,7 +9,13 @@ A case is {"n": workers, "mf": max_fails, "p0": first pid, "ticks": [{"sleep": [
 Python signal handlers, the watchdog thread and worker deaths are asynchronous to the loop; these are
 the points at which the fakes let them happen.  When the script is exhausted the next sleep() raises Stop.
 
-Fakes: Process (new/live/zombie/reaped; is_alive()/join() reap, as multiprocessing does), Event, a
+Optional "slow": k (k >= 2): a worker whose pid is a multiple of k needs longer than any finite timeout to exit
+after terminate(): it stays alive until somebody waits for it without a timeout (join()); join(timeout=x)
+returns with the process still alive.  Deaths carry an exit status (0 = clean return of the worker function,
+1 = crash, -9 = killed by a signal) chosen from (pid + tick) mod 3; the model does not look at it - the
+statement says "every worker that died".
+
+Fakes: Process (new/live/zombie/reaped; is_alive()/join()/exitcode reap, as multiprocessing does), Event, a
 synchronous FIFO Queue, sleep, os.kill (ProcessLookupError on a reaped pid, as POSIX does),
 signal.signal (captures the handlers), current_process."""
 import signal as real_signal
@@ -45,6 +51,8 @@ class FProc:
     def __init__(self, group=None, target=None, name=None, args=(), kwargs=None, daemon=None):
         self.name, self.pid, self.state, self.daemon = name, None, "new", daemon
         self.slot = int(name.split("-")[1])
+        self.termed = False
+        self.code = None
 
     def start(self):
         assert self.state == "new"
@@ -60,19 +68,40 @@ class FProc:
         W.all.append(self)
         eff("start", self.slot, self.pid)
 
+    def slow(self):
+        return bool(W.slow) and self.pid % W.slow == 0
+
+    def die(self, code):
+        if self.state == "live":
+            self.state = "zombie"
+            self.code = code
+
     def terminate(self):
         eff("terminate", self.pid)
-        if self.state == "live":
-            self.state = "zombie"       # SIGTERM: the fake worker dies at once
+        self.termed = True
+        if self.state == "live" and not self.slow():
+            self.die(-15)               # SIGTERM: the fake worker dies at once
 
     def kill(self):
-        self.terminate()
+        eff("terminate", self.pid)
+        self.termed = True
+        self.die(-9)
 
     def join(self, timeout=None):
         eff("join", self.pid)
         if self.state == "live":
-            raise JoinBlocks(self.pid)  # join() on a process nobody terminated never returns
+            if not self.termed:
+                raise JoinBlocks(self.pid)  # join() on a process nobody terminated never returns
+            if timeout is not None:
+                return                  # slow worker: still shutting down when the timeout elapses
+            self.die(-15)               # an unbounded join() waits until it has exited
         self.state = "reaped"
+
+    @property
+    def exitcode(self):
+        if self.state == "zombie":
+            self.state = "reaped"
+        return None if self.state in ("new", "live") else self.code
 
     def is_alive(self):
         if sys._getframe(1).f_code.co_name == "start":   # not the call made by _wait_for_worker_startup
@@ -136,7 +165,7 @@ def deliver(evs):
         if ev[0] == "die":
             ws = W.mgr.workers
             if ev[1] < len(ws) and ws[ev[1]].state == "live":
-                ws[ev[1]].state = "zombie"
+                ws[ev[1]].die((0, 1, -9)[(ws[ev[1]].pid + W.tick) % 3])
         elif ev[0] == "hup":
             W.handlers[S.SIGHUP](S.SIGHUP, None)
         elif ev[0] == "int":
@@ -213,6 +242,7 @@ def run_case(c, opts):
     W.ticks = [[]]          # ticks[0] = prepare_workers
     W.procs, W.all = {}, []
     W.next_pid = c["p0"]
+    W.slow = c.get("slow") or 0
     W.handlers, W.queue = {}, []
     W.bounds, W.puts, W.kills, W.start_info = [], [], [], []
     W.mgr = pm.ProcessManager(WorkerArgs(broker="x:y", modules=[], workers=c["n"], max_fails=c["mf"]),
@@ -237,4 +267,5 @@ def run_case(c, opts):
         res = ["exc", repr(e)]
     return dict(ticks=W.ticks, result=res, final=snapshot(), queue=[describe(a) for a in W.queue],
                 bounds=W.bounds, puts=W.puts, kills=W.kills, start_info=W.start_info,
-                handlers=sorted(int(k) for k in W.handlers))
+                handlers=sorted(int(k) for k in W.handlers),
+                exitcodes=[[p.pid, p.code] for p in W.all if p.code is not None])
